@@ -52,7 +52,13 @@ def case(draw, tier):
                 blocking = ph != 2 and draw(st.integers(0, 3)) == 0
                 steps.append({"ph": ph, "v": (p + 1) * 1000 + k, "blocking": blocking, "delay_us": draw(st.sampled_from([0, 0, 0, 5, 50, 300]))})
         producers.append(steps)
-    return {"policy": policy, "capacity": cap, "latch": latch, "producers": producers, "stop_after_us": draw(st.sampled_from([0, 0, 20, 200, 2000])),
+    # optionally a second push source (unbounded queue, own sink, own producer): the executor has ONE wake flag for all of
+    # them, so every source must still get its turn
+    second = None
+    if policy != "conflating" and draw(st.integers(0, 3)) == 0:      # (the drain before the stop race counts deliveries of both)
+        second = [{"ph": ph, "v": 9000 + j, "blocking": False, "delay_us": draw(st.sampled_from([0, 0, 50, 300])), "src": "ps2"}
+                  for j, ph in enumerate(sorted(draw(st.lists(st.sampled_from([1, 1, 3, 3, 4]), min_size=1, max_size=5))))]
+    return {"second": second, "policy": policy, "capacity": cap, "latch": latch, "producers": producers, "stop_after_us": draw(st.sampled_from([0, 0, 20, 200, 2000])),
             "sink_sleep_us": sink_sleep}
 
 
@@ -70,7 +76,12 @@ def check(case, ctx) -> Result:
     if case.get("sink_sleep_us"):
         sink["sleep_us"] = case["sink_sleep_us"]
     prog = {"mode": "rt", "max_wait_slice_us": 3600000000, "stmts": [{"id": "ps", "op": "push_src", "schema": schema, "policy": policy, "capacity": cap}, sink]}
-    rt = {"n_push": 1, "producers": case["producers"], "stop_after_us": case["stop_after_us"], "count_drain": policy != "conflating",
+    producers_all = list(case["producers"])
+    if case.get("second"):
+        prog["stmts"] += [{"id": "ps2", "op": "push_src", "schema": "TS[int]", "policy": "queue", "capacity": 0},
+                          {"id": "sink2", "op": "node", "ins": ["ps2"], "collect": True, "clock": True}]
+        producers_all.append(case["second"])
+    rt = {"n_push": 2 if case.get("second") else 1, "producers": producers_all, "stop_after_us": case["stop_after_us"], "count_drain": policy != "conflating",
           "value_drain": policy == "conflating"}
     if case["latch"]:
         rt["latch"] = {"v": -1}
@@ -87,9 +98,11 @@ def check(case, ctx) -> Result:
     if not resp.get("watchdog_ok"):
         res.violations.append(Viol("run_did_not_stop", "run() had not returned 20 s after request_stop", feats))
         return res
-    sends, latch_info, drains, stop_req = [], None, [], None
+    sends, latch_info, drains, stop_req, sends2 = [], None, [], None, []
     for e in resp["log"]:
-        if e[0] == "send":
+        if e[0] == "send" and e[2] == "ps2":
+            sends2.append({"v": e[3], "ph": e[5], "ok": e[7], "sb": e[6], "sa": e[8], "exc": e[12]})
+        elif e[0] == "send":
             sends.append({"p": e[1], "v": e[3], "blocking": e[4], "ph": e[5], "sb": e[6], "ok": e[7], "sa": e[8], "pend": e[11], "exc": e[12]})
         elif e[0] == "latch":
             latch_info = {"ok": e[3], "latched": e[5], "delivered": e[6], "accepted": e[7], "sb": e[2], "sa": e[4]}
@@ -108,6 +121,24 @@ def check(case, ctx) -> Result:
             v = e[6][0].get("val")
             deliveries.append((e[7].get("seq"), e[4], list(v) if isinstance(v, list) else [v], e[7].get("now")))
     flat = [v for d in deliveries for v in d[2]]
+    out2 = []
+    if case.get("second"):
+        # the second source: unbounded queue, one producer - accepted values arrive exactly once, in order, each in its own
+        # cycle, and everything accepted before the stop race is delivered
+        d2 = [(e[4], e[6][0].get("val")) for e in resp["trace"] if e[0] == "ev" and e[3] == "sink2"]
+        got2 = [v for _, v in d2]
+        acc2 = [s2["v"] for s2 in sends2 if s2["ok"]]
+        must2 = [s2["v"] for s2 in sends2 if s2["ok"] and s2["ph"] <= 3]
+        if any(s2["exc"] for s2 in sends2):
+            out2.append(("send_threw", f"a send to the second source raised: {[s2 for s2 in sends2 if s2['exc']][:2]}"))
+        elif any((not s2["ok"]) and s2["ph"] <= 3 for s2 in sends2):
+            out2.append(("unbounded_send_refused", f"a send to the second (unbounded) source was refused before any stop: {[s2 for s2 in sends2 if not s2['ok']][:2]}"))
+        elif got2 != acc2[:len(got2)] or len(set(got2)) != len(got2):
+            out2.append(("producer_order_broken", f"second source: accepted {acc2}, delivered {got2}"))
+        elif [v for v in must2 if v not in got2]:
+            out2.append(("accepted_value_lost", f"second push source: values {[v for v in must2 if v not in got2]} were accepted while the run was going but never delivered (delivered {got2}; first source delivered {flat[:12]})"))
+        elif any(b <= a for (a, _), (b, _) in zip(d2, d2[1:])):
+            out2.append(("delivery_time_not_increasing", f"second source delivery times {[t for t, _ in d2][:10]}"))
     accepted = {s["v"]: s for s in sends if s["ok"]}
     if latch_info and latch_info["ok"]:
         accepted[-1] = {"p": -1, "v": -1, "ph": 1.5, "sb": latch_info["sb"], "sa": latch_info["sa"], "ok": True}
@@ -193,7 +224,7 @@ def check(case, ctx) -> Result:
     if post:
         out.append(("accepted_after_stop", f"send of {post[0]['v']} was accepted after run() had returned"))
     # exact count while latched
-    if latch_info and latch_info["latched"] and cap > 0:
+    if latch_info and latch_info["latched"] and cap > 0 and not case.get("second"):   # (the controller's counters span both sources)
         pending = latch_info["accepted"] - latch_info["delivered"]
         ph2 = [s for s in sends if s["ph"] == 2]
         exp_acc = max(0, min(len(ph2), cap - pending))
@@ -205,6 +236,10 @@ def check(case, ctx) -> Result:
             out.append(("unbounded_send_refused", "a send was refused while latched although the queue is unbounded"))
     for clause, msg in out[:3]:
         res.violations.append(Viol(clause, msg, feats))
+    for clause, msg in out2[:1]:
+        res.violations.append(Viol(clause, msg, dict(feats, second_source=True)))
+    if case.get("second"):
+        res.labels.append("two_push_sources")
     n_prod = len(case["producers"])
     res.nontrivial = n_prod >= 2 and cap > 0 and bool(refusals) and any(s["ph"] == 3 for s in sends)
     res.labels.append("policy_" + policy)
